@@ -82,3 +82,21 @@ Proof. reflexivity. Qed.
 
 Example graph_bad_example : graph_ok 3 [(0, 1, Same); (1, 2, Bad)] = false.
 Proof. reflexivity. Qed.
+
+(** with a rank certificate, a chain of calls that all pass [depth] on unchanged is no longer than the rank of the
+    function it starts in: the analyzer's C recursion between two increments of its depth counter is bounded *)
+Theorem same_chain_bounded_proof : forall (rank : nat -> nat) (es : list edge),
+  forallb (edge_ok rank) es = true ->
+  forall p v, same_chain es v p -> length p <= rank v.
+Proof.
+  intros rank es Hok p. induction p as [|e p IH]; intros v Hc; simpl in *.
+  - lia.
+  - destruct e as [[a b] k]. destruct Hc as [Ha [Hk [Hin Hrest]]]. subst a k.
+    rewrite forallb_forall in Hok. specialize (Hok _ Hin). simpl in Hok.
+    apply Nat.ltb_lt in Hok. specialize (IH b Hrest). lia.
+Qed.
+
+Example same_chain_example : same_chain [(0, 1, Same); (1, 2, Same); (2, 0, Inc)] 0 [(0, 1, Same); (1, 2, Same)].
+Proof. simpl. repeat split; auto. Qed.
+Example edge_ok_example : forallb (edge_ok (fun v => 3 - v)) [(0, 1, Same); (1, 2, Same); (2, 0, Inc)] = true.
+Proof. reflexivity. Qed.
